@@ -300,7 +300,19 @@ def run(ctx):
         except Raised as e:
             r2.fail(f"{ci.name}.get_slot_names", f"evaluates ({e.exc_name})", gs.loc())
             continue
-        real = set(_slots(ctx, ci))
+        real = set()
+        unknown = False
+        for c_ in it0.mro(ci):
+            decl = [x for x in c_.node.body if isinstance(x, ast.Assign) and any(isinstance(t, ast.Name) and t.id == "__slots__" for t in x.targets)]
+            if not decl:
+                continue
+            okc, v = const_str(ctx, c_.module, decl[0].value)
+            if okc:
+                real |= set(v) if not isinstance(v, str) else {v}
+            else:
+                unknown = True
+        if unknown or not real:
+            continue  # a class without foldable __slots__ has a __dict__: any name is readable
         missing = [n for n in (names or ()) if n not in real]
         r2.check(not missing, f"{ci.name}.get_slot_names", "every advertised field is a slot of the class (to_json_dict reads each of them)", gs.loc(), why_fail=f"not slots: {missing}")
     # the dumped survey carries its trigger maps (as JSON lists); the builder re-collects them from the rows (as tuples):
